@@ -25,7 +25,7 @@ type Sink struct {
 	Label  string
 
 	FailAt   int    // index of the write that fails (-1: never)
-	FailMode string // "transient", "sticky", "partial"
+	FailMode string // "transient", "sticky", "partial", "fullcount" (one call returns len(p) AND an error)
 	Failed   bool   // a failure was injected
 	FailedIn string // label of the API call during which it was injected
 	FailSite string // classification of the failed write
@@ -53,6 +53,12 @@ func (s *Sink) Write(p []byte) (int, error) {
 			n := len(p) / 2
 			s.Buf = append(s.Buf, p[:n]...)
 			return n, ErrInjected
+		}
+		if s.FailMode == "fullcount" {
+			// every byte taken, and an error all the same (a sink that stores the data and then
+			// fails to sync it): legal for an io.Writer
+			s.Buf = append(s.Buf, p...)
+			return len(p), ErrInjected
 		}
 		return 0, ErrInjected
 	}
